@@ -488,6 +488,44 @@ func c03(r *core.Run) {
 		}
 	})
 
+	r.Check("D3/K1/miss-only-after-children-tried", "the recursive matcher (a function of lib/search with a boolean result that walks a node's children through the child iterator) reports a miss only as the outcome of the iterator: no constant-false return is reachable without a call of the iterator on the way (the empty remaining route, i.e. '/' or a trailing separator, is one empty segment that ':name' children match)", func(o *core.O) {
+		isIter := func(in ssa.Instruction) bool {
+			c := core.AsCall(in)
+			if c == nil {
+				return false
+			}
+			for _, it := range iterators {
+				if c.Common().StaticCallee() == it {
+					return true
+				}
+			}
+			return false
+		}
+		isIterator := map[*ssa.Function]bool{}
+		for _, it := range iterators {
+			isIterator[it] = true
+		}
+		var matchers []*ssa.Function
+		for _, f := range b2PkgFuncs(p, searchPkg) {
+			res := f.Signature.Results()
+			if isIterator[f] || f.Parent() != nil || res.Len() != 1 || res.At(0).Type().String() != "bool" || len(core.Instrs(f, isIter)) == 0 {
+				continue
+			}
+			matchers = append(matchers, f)
+		}
+		if !o.Need(len(matchers) > 0, "a boolean function of lib/search that walks children through the child iterator") {
+			return
+		}
+		retFalse := b2RetConst(0, "const:false")
+		for _, f := range matchers {
+			r.Fn(core.FuncName(f))
+			o.Site(len(core.Instrs(f, isIter)), core.FuncName(f))
+			if w, ok := core.Reach(core.Q{From: []core.At{core.Entry(f)}, Target: retFalse, Blocked: isIter}); ok {
+				o.Fail(p.InstrPos(w), "%s gives up with a constant false before the node's children were tried: a route that ends here (the empty last segment of '/' or of a trailing separator) is no longer matched by a ':name' child", core.FuncName(f))
+			}
+		}
+	})
+
 	r.Check("D3/K6/match", "match treats exactly the ':'-prefixed keys as parameters (named, found, key = pat[1:], value = token) and every other key by equality with the token", func(o *core.O) {
 		if !o.Need(len(matchers) == 1 && len(matchers[0].Params) == 2, "the function of lib/search returning innerResult (match(pat, token))") {
 			return
